@@ -64,8 +64,16 @@ def setup_paths():
     sys.path.insert(0, REPO)
     sys.path.insert(1, VERIF)
     sys.dont_write_bytecode = True
+    import logging
+    import warnings
+
     import signac
 
+    for name in ("signac", "synced_collections", "filelock"):
+        lg = logging.getLogger(name)
+        lg.addHandler(logging.NullHandler())
+        lg.propagate = False
+    warnings.simplefilter("ignore")
     here = os.path.realpath(os.path.dirname(os.path.dirname(signac.__file__)))
     if here != os.path.realpath(REPO):
         raise RuntimeError(f"signac imported from {here}, expected {REPO}")
